@@ -100,7 +100,9 @@ fn passes_inner(prop: &str, tier: Tier) -> Vec<Bounds> {
             let six = vec![S(1, 1), S(4, 4), S(4, 1), S(0, 4), Shape { size: 2, align: 2, uninit: true }];
             let mut v = match (prop, q) {
                 ("C13", true) => vec![
-                    bounds(3, 2, 1, 1, vec![S(1, 1), S(4, 4), S(0, 1), S(3, 1), Shape { size: 2, align: 2, uninit: true }]),
+                    // an aligned zero-size shape here (a zero-size datum can be "placed" where nothing fits), the
+                    // unaligned one in the second pass
+                    bounds(3, 2, 1, 1, vec![S(1, 1), S(4, 4), S(0, 4), S(3, 1), Shape { size: 2, align: 2, uninit: true }]),
                     bounds(2, 2, 2, 1, shapes_gen()),
                 ],
                 ("C13", false) => vec![bounds(3, 3, 1, 1, shapes_gen()), bounds(4, 2, 1, 1, shapes_gen()), bounds(2, 3, 2, 2, shapes_gen())],
